@@ -560,6 +560,10 @@ func (s *SortField) MarshalJSON() ([]byte, error) {
 
 func (s *SortField) Copy() SearchSort {
 	rv := *s
+	// the scratch buffers must not be shared with the original: copies are
+	// handed to concurrently running searches
+	rv.values = nil
+	rv.tmp = nil
 	return &rv
 }
 
@@ -800,6 +804,10 @@ func (s *SortGeoDistance) MarshalJSON() ([]byte, error) {
 
 func (s *SortGeoDistance) Copy() SearchSort {
 	rv := *s
+	// the scratch buffers must not be shared with the original: copies are
+	// handed to concurrently running searches
+	rv.values = nil
+	rv.tmp = nil
 	return &rv
 }
 
